@@ -39,6 +39,106 @@ func init() {
 // dispatchPoint: the instruction of Run that reads the opcode (conversion of a
 // bytecode element to code.Opcode).
 func dispatchPoint(run *ssa.Function) ssa.Instruction {
+	if dp := rawDispatchPoint(run); dp != nil {
+		return dp
+	}
+	// the instruction is decoded by a function of its own: the call of it
+	for _, b := range run.Blocks {
+		for _, ins := range b.Instrs {
+			if c, ok := ins.(*ssa.Call); ok {
+				if _, ok := decoderOf(c.Call.StaticCallee()); ok {
+					return ins
+				}
+			}
+		}
+	}
+	return nil
+}
+
+// decoder: a function that reads one instruction of a program: the position
+// of the opcode, the instruction's length and its operand among its results,
+// and of the position at which it reads among its parameters.
+type decoder struct {
+	opIdx, lenIdx, argIdx int // result indices (-1: not returned)
+	ipIdx                 int // parameter index of the position
+}
+
+var decoderCache = map[*ssa.Function]*decoder{}
+
+func decoderOf(g *ssa.Function) (*decoder, bool) {
+	if g == nil || len(g.Blocks) == 0 {
+		return nil, false
+	}
+	if d, ok := decoderCache[g]; ok {
+		return d, d != nil
+	}
+	decoderCache[g] = nil
+	dp := rawDispatchPoint(g)
+	rs := g.Signature.Results()
+	if dp == nil || rs.Len() < 2 {
+		return nil, false
+	}
+	d := &decoder{opIdx: -1, lenIdx: -1, argIdx: -1, ipIdx: -1}
+	// the position: the parameter that indexes the program where the opcode is read
+	var conv ssa.Value
+	switch c := dp.(type) {
+	case *ssa.Convert:
+		conv = c.X
+	case *ssa.ChangeType:
+		conv = c.X
+	}
+	if ld, ok := conv.(*ssa.UnOp); ok {
+		if ia, ok := ld.X.(*ssa.IndexAddr); ok {
+			for i, prm := range g.Params {
+				if ia.Index == ssa.Value(prm) {
+					d.ipIdx = i
+				}
+			}
+		}
+	}
+	var ret *ssa.Return
+	for _, b := range g.Blocks {
+		if rt, ok := terminator(b).(*ssa.Return); ok {
+			if ret != nil {
+				return nil, false
+			}
+			ret = rt
+		}
+	}
+	if ret == nil || len(ret.Results) != rs.Len() {
+		return nil, false
+	}
+	for i := range ret.Results {
+		v := returnOperand(ret, i)
+		switch {
+		case isOpcodeType(rs.At(i).Type()) && v == dp.(ssa.Value):
+			d.opIdx = i
+		case isInt(rs.At(i).Type()):
+			fromU16, fromLen := false, false
+			for _, o := range origins(v) {
+				if c, ok := o.(*ssa.Call); ok {
+					if cal := c.Call.StaticCallee(); cal != nil && cal.Name() == "Uint16" || c.Call.IsInvoke() && c.Call.Method.Name() == "Uint16" {
+						fromU16 = true
+					} else if cal != nil && cal.Pkg != nil && cal.Pkg.Pkg.Path() == Mod+"/code" {
+						fromLen = true
+					}
+				}
+			}
+			if fromU16 {
+				d.argIdx = i
+			} else if fromLen {
+				d.lenIdx = i
+			}
+		}
+	}
+	if d.opIdx < 0 || d.argIdx < 0 || d.ipIdx < 0 {
+		return nil, false
+	}
+	decoderCache[g] = d
+	return d, true
+}
+
+func rawDispatchPoint(run *ssa.Function) ssa.Instruction {
 	for _, b := range run.Blocks {
 		for _, ins := range b.Instrs {
 			var x ssa.Value
@@ -421,6 +521,24 @@ func swapSet(p *Program, run *ssa.Function) map[string]*ssa.Store {
 				continue
 			}
 			out[f] = st
+		}
+	}
+	// the parts of handlers kept in functions of their own
+	if a, _ := p.Anchors(); a != nil && a.vmRun == run {
+		for _, h := range handlerFns(p, a) {
+			for _, b := range h.Blocks {
+				for _, ins := range b.Instrs {
+					st, ok := ins.(*ssa.Store)
+					if !ok {
+						continue
+					}
+					if n, f, ok := fieldOf(st.Addr); ok && n != nil && n.Obj().Name() == "VM" && !counterLike(st) {
+						if _, have := out[f]; !have {
+							out[f] = st
+						}
+					}
+				}
+			}
 		}
 	}
 	return out
@@ -934,12 +1052,18 @@ func ruleScopePair(p *Program, r *Reporter) {
 			sites = []ssa.CallInstruction{re.call}
 		} else {
 			sites = callsTo(run, re.fn)
+			// … or in a part of a handler that has a function of its own
+			for _, h := range handlerFns(p, a) {
+				if h != re.fn {
+					sites = append(sites, callsTo(h, re.fn)...)
+				}
+			}
 		}
 		for _, site := range sites {
 			opened := false
 			for _, opener := range scopeOpeners(p, er) {
-				for _, open := range callsTo(run, opener) {
-					if dominatesInstr(open, site) && outerCase(p, run, open.Pos()) == outerCase(p, run, site.Pos()) {
+				for _, open := range callsTo(site.Parent(), opener) {
+					if dominatesInstr(open, site) && (site.Parent() != run || outerCase(p, run, open.Pos()) == outerCase(p, run, site.Pos())) {
 						opened = true
 					}
 				}
